@@ -8,6 +8,7 @@ what is stored.  Property theorems only (obligations of ./check C01).
 -/
 import LfsModel.Gen
 import LfsModel.FilterRound
+import LfsModel.Checkout
 
 namespace C01
 open Flt
@@ -134,5 +135,16 @@ example : Intact (fun b => b) [([1, 2], [1, 2])] := by
   split at h
   · rename_i heq; cases h; exact heq
   · cases h
+
+/-- smudging into a named path or output file (lfs.GitFilter.SmudgeToFile: `git lfs checkout [--to]`,
+    `git lfs pull`): the file ends up holding exactly the object's bytes whatever sat there before —
+    no file, the same file, another file of the same length, a shorter or a longer one -/
+theorem smudge_to_file_exact (recorded : Lfs.Ptr) (st : Co.Store) (content : Lfs.Bytes) (cur : Co.WFile)
+    (h : st.get recorded.oid = some content) (hs : recorded.size ≠ 0) :
+    Co.smudgeToFile recorded st cur = content := by
+  unfold Co.smudgeToFile
+  split
+  · rename_i h0; exact absurd h0 hs
+  · simp [h]
 
 end C01
